@@ -221,6 +221,7 @@ class Builder:
         self.mutations = []   # (kind, receiver Node, ast node, FuncInfo): in-place updates
         self.assign_log = []  # (FuncInfo, ast.Name target, Node) for every plain-name assignment
         self.memo_calls = []  # (FuncInfo, call ast) of calls to memoised functions
+        self.param_nodes = {}   # (oid, parameter name) -> the one Param node of that instance parameter
         self.alias_updates = []   # (location, ast, FuncInfo): in-place updates seen through an alias
         self.opaque = {}      # function fullname -> symbol name (result is a named dimensionless constant)
 
@@ -468,9 +469,14 @@ class Builder:
                     self.shared_reads.append((('heap', o.oid, o.cls.name, name), v, self.cur_op, at))
                 return v
             if o.symbolic and name in o.param_keys:
-                n = self.mk('param', name, at=at)
-                n.owner = o.oid
-                n.op = base.op
+                # one node per (instance, parameter): a first read inside a branch must not make the merged
+                # state hold phi(cond, param, param') of two nodes that denote the same value
+                n = self.param_nodes.get((o.oid, name))
+                if n is None:
+                    n = self.mk('param', name, at=at)
+                    n.owner = o.oid
+                    n.op = base.op
+                    self.param_nodes[(o.oid, name)] = n
                 h[name] = n
                 return n
             dyn = self.dynamic_class_attr(o.cls, name, at)
